@@ -47,7 +47,7 @@ META = {
     "design_ref": "DESIGN.md section 3, C31",
 }
 
-SHAPES = ["fixed", "fixedgen", "stream", "stream", "chunked", "empty", "empty0", "overlong"]
+SHAPES = ["fixed", "fixedgen", "stream", "stream", "chunked", "empty", "empty0", "overlong", "raise", "raisegen"]
 NOLEN = ("stream", "chunked", "empty")
 
 piece = st.one_of(st.binary(min_size=1, max_size=12), st.binary(min_size=1, max_size=90),
@@ -61,7 +61,7 @@ req_st = st.fixed_dictionaries({
     "status": st.sampled_from(["200 OK", "200 OK", "201 Created", "404 Not Found", "204 No Content", "304 Not Modified"]),
 }).map(lambda r: dict(r, shape=(r["shape"] if r["shape"] in ("empty", "empty0") else "empty"))
        if r["status"][:3] in ("204", "304") else r      # 204 / 304 carry no body (with or without Content-Length: 0)
-       ).map(lambda r: dict(r, shape=("fixed" if r["shape"] in ("fixed", "fixedgen", "stream", "chunked", "overlong") else "empty0"))
+       ).map(lambda r: dict(r, shape=("fixed" if r["shape"] in ("fixed", "fixedgen", "stream", "chunked", "overlong", "raise", "raisegen") else "empty0"))
              if r["method"] == "HEAD" else r)    # the reply to a HEAD: head only, Content-Length of the would-be body or 0
 sched_list = st.one_of(st.just([]), st.lists(st.sampled_from([0, 0, 1, 2, 3, 5, 8, 13, 64, 1000]), min_size=1, max_size=6))
 sched_st = st.fixed_dictionaries({"a_send": sched_list, "a_recv": sched_list, "b_send": sched_list, "b_recv": sched_list})
@@ -78,12 +78,20 @@ def expected(i, r):
     head = b"id=%d;" % i
     if r["shape"] in ("empty", "empty0") or r["method"] == "HEAD":
         return int(r["status"][:3]), b""
+    if r["shape"] in ("raise", "raisegen"):
+        return 404, _error(i).render()
     body = head + (r["reqbody"] if r["method"] not in ("GET", "HEAD") else b"") + b";" + b"".join(r["pieces"])
     if r["shape"] == "overlong":
         # the application yields more than the Content-Length it declared (the surplus lies in its last piece): the
         # response is delimited by the declared length, the surplus is never sent
         body = body[:len(body) - _surplus(r)]
     return int(r["status"][:3]), body
+
+
+def _error(i):
+    """The HTTP error the application raises instead of answering request i (before anything was sent)."""
+    from ioflo.aio.http import httping
+    return httping.HTTPError(404, title="gone", detail="id=%d" % i, headers={"X-Echo-Id": str(i)})
 
 
 def _surplus(r):
@@ -105,6 +113,14 @@ def make_app(reqs, calls):
         if environ["REQUEST_METHOD"] == "HEAD":
             start_response(r["status"], hs + [("Content-Length", str(total if shape == "fixed" else 0))])
             return []
+        if shape == "raise":          # the callable itself raises the error (there is no iterator)
+            raise _error(i)
+        if shape == "raisegen":
+
+            def failing():
+                raise _error(i)
+                yield b""             # noqa: unreachable, makes this a generator
+            return failing()
         if shape == "empty":
             start_response(r["status"], hs)
             return []
